@@ -667,6 +667,29 @@ func validTemplate(path string) bool {
 
 // buildContainer adds every service it can; a service whose Add panics (net/http
 // mux pattern conflict) is left out and reported in skipped.
+func sameStrings(a, b []string) bool {
+	if len(a) != len(b) {
+		return false
+	}
+	for i := range a {
+		if a[i] != b[i] {
+			return false
+		}
+	}
+	return true
+}
+
+// what the container does with a routing error when no handler is configured, written by hand: installing it must
+// change nothing
+func equivalentServiceErrorHandler(se restful.ServiceError, rq *restful.Request, rp *restful.Response) {
+	for k, vs := range se.Header {
+		for _, v := range vs {
+			rp.Header().Add(k, v)
+		}
+	}
+	rp.WriteErrorString(se.Code, se.Message)
+}
+
 func buildContainer(t TableSpec, pr *probe) (c *restful.Container, kept TableSpec, skipped int) {
 	c = restful.NewContainer()
 	nroutes := 0
@@ -674,6 +697,9 @@ func buildContainer(t TableSpec, pr *probe) (c *restful.Container, kept TableSpe
 		nroutes += len(sv.Routes)
 	}
 	setRouter(c, t.Router, nroutes+len(t.Services))
+	if nroutes%3 == 1 {
+		c.ServiceErrorHandler(equivalentServiceErrorHandler)
+	}
 	kept = TableSpec{Router: t.Router}
 	roots := map[string]bool{}
 	for _, sv0 := range t.Services {
@@ -691,13 +717,32 @@ func buildContainer(t TableSpec, pr *probe) (c *restful.Container, kept TableSpe
 		ws := new(restful.WebService)
 		ws.Path(sv.Root)
 		ws.SetDynamicRoutes(true) // routes may be removed later (domain cors); serving is the same either way
+		// set-up variation: when every route of the service declares its media types, half of the services declare the
+		// first route's lists on the WebService and leave them out on the routes that have exactly those (routes inherit
+		// what they do not declare)
+		var wsProduces, wsConsumes []string
+		if len(sv.Routes) > 0 && len(sv.Routes)%2 == 0 {
+			allP, allC := true, true
+			for _, rs := range sv.Routes {
+				allP = allP && len(rs.Produces) > 0
+				allC = allC && len(rs.Consumes) > 0
+			}
+			if allP {
+				wsProduces = sv.Routes[0].Produces
+				ws.Produces(wsProduces...)
+			}
+			if allC {
+				wsConsumes = sv.Routes[0].Consumes
+				ws.Consumes(wsConsumes...)
+			}
+		}
 		for _, rs := range sv.Routes {
 			rs := rs
 			b := ws.Method(rs.Method).Path(rs.Rel)
-			if len(rs.Consumes) > 0 {
+			if len(rs.Consumes) > 0 && !(wsConsumes != nil && sameStrings(rs.Consumes, wsConsumes)) {
 				b.Consumes(rs.Consumes...)
 			}
-			if len(rs.Produces) > 0 {
+			if len(rs.Produces) > 0 && !(wsProduces != nil && sameStrings(rs.Produces, wsProduces)) {
 				b.Produces(rs.Produces...)
 			}
 			for _, cv := range rs.Conds {
